@@ -302,8 +302,12 @@ def summarise(engine_name, eng, focus, tier, seed, results, wall, known_patterns
     }
     if extra:
         ev['coverage'].update(extra)
-    os.makedirs(EVIDENCE_DIR, exist_ok=True)
-    with open(os.path.join(EVIDENCE_DIR, focus + '.json'), 'w') as f:
+    evdir = EVIDENCE_DIR
+    if os.environ.get('VERIF_SCRATCH_EVIDENCE'):
+        import tempfile
+        evdir = tempfile.mkdtemp(prefix='dsim-ev-', dir='/dev/shm')
+    os.makedirs(evdir, exist_ok=True)
+    with open(os.path.join(evdir, focus + '.json'), 'w') as f:
         json.dump(jsonable(ev), f, indent=1, sort_keys=True)
     # replay files of this (property, seed) that were not selected are removed
     chosen = {c['replay'] for c in classes.values() if c['replay']}
@@ -312,6 +316,9 @@ def summarise(engine_name, eng, focus, tier, seed, results, wall, known_patterns
             p = v.get('replay')
             if p and p not in chosen and os.path.exists(p):
                 os.remove(p)
+    if os.environ.get('VERIF_SCRATCH_EVIDENCE'):
+        import shutil
+        shutil.rmtree(evdir, ignore_errors=True)
     for ln in lines:
         print(ln)
     print('%s %s seed=%d runs=%d ok=%d distinct_nontrivial=%d states=%d transitions=%d wall=%.1fs '
